@@ -79,6 +79,10 @@ public:
     stack_element& stack_under_top() {
         return stackq_[stackq_.size() - 2];
     }
+    // the element of layer @a level (0 = top level of the tree)
+    stack_element& stack_at(std::size_t level) {
+        return stackq_[level];
+    }
     void stack_pop() {
         return stackq_.pop_back();
     }
@@ -135,6 +139,35 @@ inline status iscan_check_retry(border_node* const bn, node_version64_body& v_at
         return status::OK_RETRY_AFTER_FB;
     }
     return status::OK;
+}
+
+/**
+ * @brief Find the current root of the layer the cursor is in by walking down from the tree
+ * root along the link tuples saved in the stack.
+ * @details The border nodes saved in the stack elements of the upper layers cannot be trusted
+ * for this: they may have been split since the cursor went down, and the link may live in
+ * another border now.
+ * @return the root of the top layer, nullptr if one of the links is gone.
+ */
+static base_node* iscan_resolve_top_layer_root(iscan_context* ctx) {
+    for (;;) {
+        base_node* r = ctx->get_ti()->load_root_ptr();
+        bool again{false};
+        for (std::size_t level = 0; level + 1 < ctx->stack_size() && r != nullptr; ++level) {
+            auto& e = ctx->stack_at(level);
+            status check_status{};
+            auto border_and_v = find_border(r, e.key.get_key_slice(), e.key.get_key_length(), check_status);
+            border_node* b = std::get<0>(border_and_v);
+            if (check_status != status::OK || b == nullptr) {
+                // a root on the way was replaced meanwhile: walk down again
+                again = true;
+                break;
+            }
+            link_or_value* lv = b->get_lv_of_without_lock(e.key.get_key_slice(), e.key.get_key_length());
+            r = (lv != nullptr) ? lv->get_next_layer() : nullptr;
+        }
+        if (!again) { return r; }
+    }
 }
 
 // find first key location
@@ -368,10 +401,7 @@ retry_from_root:
             // under the link of the upper layer): fetch the new root through that link and
             // find the position again, as for a root that was split.
             if (!root->get_version_border()) {
-                auto& up = ctx->stack_under_top();
-                link_or_value* up_lv = up.bn->get_lv_of_without_lock(
-                        up.key.get_key_slice(), up.key.get_key_length());
-                base_node* new_layer_root = (up_lv != nullptr) ? up_lv->get_next_layer() : nullptr;
+                base_node* new_layer_root = iscan_resolve_top_layer_root(ctx);
                 if (new_layer_root != nullptr) {
                     // (equal to the old pointer while the writer has not swapped the link yet)
                     ctx->stack_top().layer_root = new_layer_root;
@@ -397,10 +427,9 @@ retry_from_root:
             // collapsed). Fetch it through the link held by the border of the upper layer and
             // find the position again below it, instead of giving up the rest of the layer.
             {
-                auto& up = ctx->stack_under_top();
-                link_or_value* up_lv = up.bn->get_lv_of_without_lock(
-                        up.key.get_key_slice(), up.key.get_key_length());
-                base_node* new_layer_root = (up_lv != nullptr) ? up_lv->get_next_layer() : nullptr;
+                // (through the borders that hold the links NOW: the border saved for the upper
+                //  layer may have been split meanwhile and the link may have moved)
+                base_node* new_layer_root = iscan_resolve_top_layer_root(ctx);
                 if (new_layer_root != nullptr) {
                     // (equal to the old pointer while the writer has not swapped the link yet:
                     //  retry until it has, as layer 0 does with the tree root)
